@@ -73,17 +73,20 @@ def handle (line : String) : String :=
               let shapeOk := D.shape == E.shape ++ xshape
               if !shapeOk then Json.mkObj [("shape", false), ("sym", "error"), ("pt", "error"), ("what", s!"shape {D.shape} expected {E.shape ++ xshape}")] else
               -- symbolic comparison
+              let modinv := jac.any fun (i, row) => row.any fun (j, d) => match d with
+                | some dp => !presubst && !(dp == D.get (i ++ j))
+                | none => false
               let symDiff := jac.findSome? fun (i, row) => row.findSome? fun (j, d) =>
                 match d with
                 | none => some (i ++ j, "none")
                 | some dp =>
                   if presubst then
                     match substJ dp with
-                    | .ok v => if v == D.get (i ++ j) then none else some (i ++ j, v.key)
+                    | .ok v => if v == D.get (i ++ j) || eqModInv 6 v (D.get (i ++ j)) then none else some (i ++ j, v.key)
                     | .error _ => some (i ++ j, "point-error")
-                  else if dp == D.get (i ++ j) then none else some (i ++ j, dp.key)
+                  else if dp == D.get (i ++ j) || eqModInv 6 dp (D.get (i ++ j)) then none else some (i ++ j, dp.key)
               match symDiff with
-              | none => Json.mkObj [("shape", true), ("sym", "same"), ("pt", "same")]
+              | none => Json.mkObj [("shape", true), ("sym", if modinv then "same-modinv" else "same"), ("pt", "same")]
               | some (at0, _) =>
                 -- comparison at the sample point
                 match dc with
